@@ -107,5 +107,51 @@ def c12():
     return dg((s, r["html"], [(e.name, str(e.version)) for e in r["dependencies"]]))
 
 
-B = {1: c1, 2: c2, 3: c3, 4: c4, 5: c5, 6: c6, 7: c7, 8: c8, 9: c5b, 10: c10, 11: c11, 12: c12}
+# objects that live as long as the process: the same page / text document is rendered every time its construction comes
+# up in the schedule (a repetition renders the very same objects again)
+_KEEP = {}
+
+
+def _page():
+    d = deps3()
+    return tags.html(tags.head(), tags.body(tags.h1("t"), d[0], d[1], H.head_content(tags.title("T"))))
+
+
+def _text():
+    d = deps3()
+    body = "".join(x.serialize_to_script_json().get_html_string() for x in d[:3])
+    return H.HTMLTextDocument("<html><head>PH</head><body>PH" + body + "</body></html>", deps_replace_pattern="PH")
+
+
+def _settings(key):
+    n = _KEEP[key] = _KEEP.get(key, 0) + 1
+    return ["lib", "other", "x/y"][n % 3], n % 2 == 0
+
+
+def _same(a, b):
+    return (a["html"] == b["html"], [(e.name, str(e.version)) for e in a["dependencies"]] == [(e.name, str(e.version)) for e in b["dependencies"]])
+
+
+def c13():
+    # the kept page / document rendered with the settings of this call must come out like a freshly built one
+    if "page" not in _KEEP:
+        _KEEP["page"] = _page()
+        _KEEP["doc"] = H.HTMLDocument(_KEEP["page"], lang="en")
+    prefix, iv = _settings("n13")
+    kept = _KEEP["doc"].render(lib_prefix=prefix, include_version=iv)
+    kept2 = H.HTMLDocument(_KEEP["page"], lang="en").render(lib_prefix=prefix, include_version=iv)
+    fresh = H.HTMLDocument(_page(), lang="en").render(lib_prefix=prefix, include_version=iv)
+    return dg(("kept objects render like fresh ones", _same(kept, fresh), _same(kept2, fresh), str(_KEEP["page"]) == str(_page())))
+
+
+def c14():
+    if "text" not in _KEEP:
+        _KEEP["text"] = _text()
+    prefix, iv = _settings("n14")
+    kept = _KEEP["text"].render(lib_prefix=prefix, include_version=iv)
+    fresh = _text().render(lib_prefix=prefix, include_version=iv)
+    return dg(("kept objects render like fresh ones", _same(kept, fresh)))
+
+
+B = {1: c1, 2: c2, 3: c3, 4: c4, 5: c5, 6: c6, 7: c7, 8: c8, 9: c5b, 10: c10, 11: c11, 12: c12, 13: c13, 14: c14}
 print(json.dumps([B[c]() for c in order]))
